@@ -176,7 +176,9 @@ static void op_xsrevive(actor *a, int xi)
 static void op_setmain(actor *a, int xi, int kind)
 {
     vxs *x = &G.xs[xi];
-    if (xi != 0 && !(x->created && x->joined && !x->freed))
+    /* a running secondary stream may only be changed by a ULT running on it (self-replacement) */
+    int self_replace = (xi != 0 && a->kind == A_UNIT && x->created && !x->joined && !x->freed);
+    if (xi != 0 && !self_replace && !(x->created && x->joined && !x->freed))
         generr("set_main_sched on a running secondary stream");
     if (!x->nalt)
         generr("stream %d has no alternative pools", xi);
@@ -208,6 +210,17 @@ static void op_setmain(actor *a, int xi, int kind)
     CHECK_RC(rc, "ABT_xstream_get_main_sched");
     if (xi == 0)
         G.main_a.cur_pool = x->pools[0];
+    if (self_replace) {
+        /* "keeps the stream and the calling ULT running under the new scheduler" */
+        a->cur_pool = a->pool = a->expect_pool = x->pools[0];
+        ABT_pool lp = ABT_POOL_NULL;
+        rc = ABT_self_get_last_pool(&lp);
+        CHECK_RC(rc, "ABT_self_get_last_pool");
+        if (lp != G.pool[x->pools[0]].h)
+            viol("after replacing its own stream's main scheduler the caller runs out of a pool "
+                 "that is not the first pool of the new scheduler");
+        stat_add("main_sched_self_replaced_secondary", 1);
+    }
     stat_add("main_sched_replaced", 1);
     hist(a, "setmain", xi, kind, 0);
 }
